@@ -68,11 +68,16 @@ prop("C20", level="exploration",
 def plan_c20(tier, seed):
     # nine fresh processes whose FIRST endian operation differs (process-global first-use state)
     firsts = [Run(v, "c20", ["first=%d" % k, "onlyfirst"], timeout=120) for k in range(9) for v in (("std-debug", "std-release") if tier != "quick" or k % 2 == 0 else ("std-debug",))]
+    # "regardless of the host": the same monitor interpreted by Miri for a BIG-ENDIAN target (s390x)
+    # and for the little-endian host, on a thinned-out value set; first operations included
+    interp = [Run("miri-be", "c20", ["seed=%d" % seed, "first=%d" % (seed % 9)], timeout=1500),
+              Run("miri", "c20", ["seed=%d" % seed, "first=%d" % ((seed + 4) % 9)], timeout=1500)]
     if tier == "quick":
-        return firsts + [Run("std-release", "c20", ["seed=%d" % seed, "tier=quick"], timeout=300),
-                         Run("std-debug", "c20", ["seed=%d" % seed, "tier=quick", "random32=200000", "random64=300000"], timeout=300)]
-    return firsts + [Run("std-release", "c20", ["seed=%d" % seed, "tier=thorough"], timeout=3000),
-                     Run("std-debug", "c20", ["seed=%d" % seed, "tier=quick"], timeout=900)]
+        return firsts + interp + [Run("std-release", "c20", ["seed=%d" % seed, "tier=quick"], timeout=300),
+                                  Run("std-debug", "c20", ["seed=%d" % seed, "tier=quick", "random32=200000", "random64=300000"], timeout=300)]
+    interp += [Run("miri-be", "c20", ["seed=%d" % (seed + s), "first=%d" % k, "random64=2000", "random32=2000"], timeout=3400) for s, k in ((1, 1), (2, 3), (3, 5), (4, 7))]
+    return firsts + interp + [Run("std-release", "c20", ["seed=%d" % seed, "tier=thorough"], timeout=3000),
+                              Run("std-debug", "c20", ["seed=%d" % seed, "tier=quick"], timeout=900)]
 
 
 FLOORS["C20"] = {"evaluations": 10_000_000, "distinct_nontrivial": 1000}
@@ -118,9 +123,13 @@ def plan_c09(tier, seed):
         runs = shards("std-debug", "c09", 8, ["seed=%d" % seed, "cases=2400", "noexh"], timeout=600)
         runs.append(Run("std-release", "c09", ["seed=%d" % seed, "cases=0"], timeout=600))
         runs.append(Run("std-release-ovf", "c09", ["seed=%d" % (seed + 5), "cases=300", "noexh", "nohuge"], timeout=600))
+        # every page of bitmaps with 2^32-64 .. 2^33 pages dirty at once (needs ~2 GiB, ~20 s each)
+        runs.append(Run("std-release", "c09", ["cases=0", "noexh", "nohuge", "nothresholds", "nowrap", "alldirty"], timeout=900))
+        runs.append(Run("std-release-ovf", "c09", ["cases=0", "noexh", "nohuge", "nothresholds", "nowrap", "alldirty"], timeout=900))
         return runs
     runs = shards("std-debug", "c09", 16, ["seed=%d" % seed, "cases=200000", "noexh"], timeout=3400)
-    runs.append(Run("std-release", "c09", ["seed=%d" % seed, "cases=0", "xbs=40"], timeout=3000))
+    runs.append(Run("std-release", "c09", ["seed=%d" % seed, "cases=0", "xbs=40", "alldirty"], timeout=3000))
+    runs.append(Run("std-release-ovf", "c09", ["cases=0", "noexh", "nohuge", "nothresholds", "nowrap", "alldirty"], timeout=3000))
     runs += shards("miri", "c09", 16, ["seed=%d" % seed, "cases=480", "noexh", "maxops=30"], timeout=3400)
     return runs
 
@@ -351,8 +360,11 @@ prop("C14", level="fault_enumeration",
 def plan_c14(tier, seed):
     if tier == "quick":
         return shards("std-debug", "c14", 4, ["seed=%d" % seed, "cases=4000", "maxlen=3"], timeout=600, crash_is_violation=True) + \
-            [Run("std-release", "c14", ["seed=%d" % (seed + 1), "cases=4000", "maxlen=2"], timeout=600, crash_is_violation=True)]
-    runs = shards("std-debug", "c14", 16, ["seed=%d" % seed, "cases=400000", "maxlen=4", "fdcases=20000"], timeout=3400, crash_is_violation=True)
+            [Run("std-release", "c14", ["seed=%d" % (seed + 1), "cases=4000", "maxlen=2"], timeout=600, crash_is_violation=True),
+             # the library built without its default `rawfd` feature: caller-implemented streams only
+             Run("std-debug-norawfd", "c14", ["seed=%d" % (seed + 2), "cases=3000", "maxlen=3"], timeout=600, crash_is_violation=True)]
+    runs = shards("std-debug-norawfd", "c14", 4, ["seed=%d" % (seed + 2), "cases=200000", "maxlen=4"], timeout=3400, crash_is_violation=True)
+    runs += shards("std-debug", "c14", 16, ["seed=%d" % seed, "cases=400000", "maxlen=4", "fdcases=20000"], timeout=3400, crash_is_violation=True)
     runs += shards("std-release", "c14", 8, ["seed=%d" % (seed + 1), "cases=400000", "maxlen=4", "fdcases=20000"], timeout=3400, crash_is_violation=True)
     runs += shards("miri", "c14", 16, ["seed=%d" % seed, "cases=160", "maxlen=2"], timeout=3400)
     return runs
@@ -541,7 +553,10 @@ def plan_c08(tier, seed):
     return runs
 
 
-FLOORS["C08"] = {"schedules_explored": 220_000, "programs_exhausted": 90, "schedules_with_cross_thread_contention_on_one_word": 20_000, "free_histories": 5000}
+# (the number of schedules depends on how many atomic steps the implementation takes per operation:
+# the floor that must hold is "every catalogue program was explored to the end"; the schedule
+# counts are kept low enough that an implementation with fewer steps per range still passes)
+FLOORS["C08"] = {"programs_exhausted": 145, "schedules_explored": 15_000, "schedules_with_cross_thread_contention_on_one_word": 5_000, "free_histories": 5000}
 
 # ----------------------------------------------------------------------------------------------
 prop("C11", level="exploration",
